@@ -365,6 +365,8 @@ def m2_rules(run):
         run.missing("C09.M2", "Merge::merge_recursive / second_pass_merge")
     else:
         mr, sp = mr[0], sp[0]
+        # the inner loop of the sweep extracted into a private helper (`absorb_into_latest(groups, item) -> bool`) is spliced back
+        prog.inline_single_use_helpers(sp, same_file=True)
         rec = [(bid, t) for bid, t in prog.calls(mr) if Program.callee_name(t) == mr]
         ok = False
         for bid, t in rec:
